@@ -413,7 +413,7 @@ pub fn render_hexadecimal(
 ) {
 	render_integer(
 		out,
-		iv < 0.0,
+		iv <= -1.0,
 		iv.abs(),
 		padding,
 		precision,
